@@ -143,6 +143,17 @@ InsertS(d, p, b) ==
     /\ nextRef' = nextRef + n
     /\ UNCHANGED root
 
+\* InstanceBuilder::with_referent lets the caller choose the referent of a node.  A referent the DOM already
+\* answers for cannot be inserted a second time: the call panics at that node (documented since the "fix:" commit
+\* for the silent replacement it used to perform).  The nodes before node k in the builder's breadth-first order
+\* are in place by then - a partial, well-formed insertion; for k = 1 nothing has changed.
+InsertCollideS(d, p, b, k, c) ==
+    /\ BuilderOK(b) /\ k \in 1..Len(b)
+    /\ c \in Refs /\ owner[c] = d
+    /\ root[d] # Null
+    /\ p = Null \/ (p \in Refs /\ owner[p] = d)
+    /\ IF k = 1 THEN UNCHANGED svars ELSE InsertS(d, p, SubSeq(b, 1, k - 1))
+
 InsertU(d, p, b) ==
     LET n == Len(b)
         new == nextRef..(nextRef + n - 1)
@@ -174,6 +185,7 @@ NewS(d, b) ==
        /\ nextRef' = nextRef + n
 
 NewU(d, b) == InsertU(d, Null, b)
+InsertCollideU(d, p, b, k) == IF k = 1 THEN UidUnchanged ELSE InsertU(d, p, SubSeq(b, 1, k - 1))
 
 \* WeakDom::default(): an empty DOM without a root.  root_ref() answers Ref::none() for ever; everything put into it
 \* later (insert under Ref::none(), clone_into_external, transfer under one of those) is an ordinary orphan tree,
